@@ -269,6 +269,16 @@ def check_endianness(out, facts):
                 tmv = globals().pop('_tm', None)
                 tgt = tmv[4][1] if tmv else None
                 ok_t = tgt == '&[%s]' % ('u8' if prim in ('u8', 'i8') else prim)
+                if not tmv and len(wr) == 1:
+                    # the same bytes as a raw-parts view of the whole slice: len * size_of of this arm's primitive
+                    wb = whole_byte_view(wr[0][1])
+                    if wb and wb[1] == PRIM_BYTES[prim] and sym.vstr(wb[0]) in ('slice', 'index(slice, RangeFull::RangeFull{})'):
+                        out.ob('R01.3', '%s arm %s reinterprets as [%s] [%s]' % (path, var, prim, cfg), True, '', f['loc'])
+                        out.ob('R01.3', '%s arm %s covers the whole slice [%s]' % (path, var, cfg), True, '', f['loc'])
+                        if prim not in ('u8', 'i8'):
+                            out.ob('R01.2', '%s arm %s guarded by cfg!(target_endian) [%s]' % (path, var, cfg), has_cfg,
+                                   'multi-byte elements are reinterpreted without the target-endianness guard', f['loc'])
+                        continue
                 out.ob('R01.3', '%s arm %s reinterprets as [%s] [%s]' % (path, var, prim, cfg), bool(wr) and ok_t,
                        'arm %s writes the slice reinterpreted as %s' % (var, tgt), f['loc'])
                 whole = tmv and sym.vstr(tmv[3][0]) in ('index(slice, RangeFull::RangeFull{})', 'slice')
